@@ -92,16 +92,111 @@ def string_body(t0, t1, t2):
             rt.require(_den(got, x) == want, 'scrub:string', f'{text!r}: probe {x} denoted={_den(got, x)} expected={want}')
 
 
+# ------------------------------------------------------------ find / facet -----
+POOL = [('ta', 'a', 'T1', 1), ('ta', 'a', 'T1', 2), ('ta', 'a', 'T2', 10), ('ta', 'a2', 'T1', 2), ('tb', 'a', 'T1', 10), ('tb', 'a', 'T2', 3)]
+RUNIDS = [None, [2], [1, 10], [Range(1, 3)], [Range(2, None)], [Range(0, 2), 10], '1:3', '2:', '1,10', ':2,10', [Range(3, 11), Range(1, 2)]]
+TARGETS = [None, ['T1'], ['T1', 'T2'], ['nope']]
+TASKS = [None, ['ta'], ['tb']]
+ALGS = [None, ['a'], ['a2']]
+SVS = [None, ['s']]
+PAGES = [(0, None), (0, 1), (1, 1), (2, 1), (0, 2), (2, 2), (1, 3), (4, 2), (9, 2)]
+_F = {}
+
+
+def _fsetup():
+    if 'ae' not in _F:
+        import dawgie.db.shelve as shelve_db
+        from vp.harness import store
+        from vp.shims import shelveworld
+
+        _F['ae'], _F['w'] = store.setup()
+        _F['shelve'] = shelve_db
+        _F['store'] = store
+    return _F
+
+
+def _expr_members(expr, x):
+    if isinstance(expr, str):
+        idx, rng = _ref_divide(expr)
+        return x in idx or any(a <= x and (b is None or x < b) for a, b in rng)
+    return _den(expr, x)
+
+
+def find_body(mask, ri, ti, ki, ai, si, pi, facet):
+    """content = the pool entries selected by the literal bit mask; constraints and the
+    page are selectors; oracle = brute-force filter of the real _prime_keys() names"""
+    sels = []
+    for sel, n in ((ri, len(RUNIDS)), (ti, len(TARGETS)), (ki, len(TASKS)), (ai, len(ALGS)), (si, len(SVS)), (pi, len(PAGES))):
+        x = None
+        for j in range(n):
+            if sel == j:
+                x = j
+                break
+        if x is None:
+            return
+        sels.append(x)
+    with rt.island():
+        f = _fsetup()
+        f['w'].reset()
+        f['w'].on_step = None
+        for bit, (task, name, tgt, run) in enumerate(POOL):
+            if mask >> bit & 1:
+                f['shelve'].add(tgt)
+                f['store'].do_update(f['ae'], task, name, tgt, run, f'c{bit}')
+        runids, targets, tasks, algs, svs = RUNIDS[sels[0]], TARGETS[sels[1]], TASKS[sels[2]], ALGS[sels[3]], SVS[sels[4]]
+        index, limit = PAGES[sels[5]]
+        rt.note(f'content={mask:06b} runids={runids!r} targets={targets} tasks={tasks} algs={algs} svs={svs} page=({index},{limit})')
+        rows = set()
+        for full in f['shelve']._prime_keys():
+            run, tgt, task, alg, sv, _val = full.split('.')
+            if runids is not None and not _expr_members(runids, int(run)):
+                continue
+            if targets is not None and tgt not in targets or tasks is not None and task not in tasks or algs is not None and alg not in algs or svs is not None and sv not in svs:
+                continue
+            rows.add((int(run), tgt, task, alg, sv))
+        want = sorted(rows)
+        if want:
+            rt.nontrivial()
+        eng = f['shelve'].search()
+        params = Params(runids=runids, targets=targets, tasks=tasks, algs=algs, svs=svs, vals=None)
+        allres = eng.find(params, 0, None)
+        got_all = [tuple([int(x.split('.')[0])] + x.split('.')[1:]) for x in allres.items]
+        rt.require(sorted(got_all) == want, 'find:wrong-entries', f'find returned {sorted(got_all)}, brute force {want}')
+        rt.require(len(set(got_all)) == len(got_all), 'find:duplicates', str(got_all))
+        rt.require([g[0] for g in got_all] == sorted(g[0] for g in got_all), 'find:run-order', f'run ids not ascending: {[g[0] for g in got_all]}')
+        rt.require(allres.total == len(want), 'find:total', f'total {allres.total}, full match count {len(want)}')
+        page = eng.find(params, index, limit)
+        exp_page = allres.items[index:] if limit is None else allres.items[index:index + limit]
+        rt.require(page.total == len(want), 'find:page-total', f'page total {page.total} != {len(want)}')
+        rt.require(list(page.items) == list(exp_page), 'find:page', f'page (index={index}, limit={limit}) = {page.items}, expected {exp_page} of {allres.items}')
+        if facet:
+            # the facet of each dimension == the distinct names of that dimension among the matches
+            for dim, pos in (('targets', 1), ('tasks', 2), ('algs', 3), ('svs', 4)):
+                d = params._asdict()
+                d[dim] = []
+                rows2 = set()
+                for full in f['shelve']._prime_keys():
+                    run, tgt, task, alg, sv, _val = full.split('.')
+                    rec = {'targets': tgt, 'tasks': task, 'algs': alg, 'svs': sv}
+                    if runids is not None and not _expr_members(runids, int(run)):
+                        continue
+                    if any(d[k_] and rec[k_] not in d[k_] for k_ in rec if k_ != dim):
+                        continue
+                    rows2.add(rec[dim])
+                got = eng.facet(Params(**d))
+                rt.require(sorted(got) == sorted(rows2), 'facet:wrong-names', f'facet {dim} with {d} = {got}, brute force {sorted(rows2)}')
+
+
 INFO = {
     'explanation': 'Denotation lemma: the real SearchFacade._divide/_scrub run symbolically on run-id expressions whose '
     'range bounds, indices and the probe id x are unbounded z3 integers (open/closed pattern = partition); CrossHair '
     'exhausts all paths, so membership of every integer x is preserved by normalisation, normalisation is idempotent '
-    'and leaves the other constraints alone. String syntax: token sequences from a pool, exhaustive probe set.',
+    'and leaves the other constraints alone. String syntax: token sequences from a pool, exhaustive probe set. Find/facet: the real shelve SearchImplementation over a ShelveWorld filled by real updates; database content (literal bit mask), every constraint and the page are selectors exhausted by CrossHair; results must equal a brute-force filter of the real _prime_keys() names collapsed to state-vector level, ascending by run id, with the full count as total, and page (index, limit) must be items[index:index+limit] of the full result; each facet must list the distinct names among the matches.',
     'rule': 'lemma: one path = one ordering/overlap case of the ranges and indices (all non-trivial); string form: one '
     'path = one token sequence',
-    'functions': ['db.basis.SearchFacade._divide', 'db.basis.SearchFacade._scrub', 'db.basis.Range'],
+    'functions': ['db.basis.SearchFacade._divide', 'db.basis.SearchFacade._scrub', 'db.basis.Range', 'db.basis.SearchFacade.find/facet', 'db.shelve.search.SearchImplementation._prime_keys/_find/_facet', 'db.shelve.search._subset/_align/_table_index'],
     'bounds': {
-        'quick': '<=2 ranges (each open or closed, any integer bounds incl. empty/inverted) + <=2 indices, probe id any integer; strings: 3 tokens from a pool of 14',
+        'quick': 'find/facet: contents = subsets of a pool of 6 stored units (3 authors, 2 targets, runs 1,2,3,10) x 11 run-id expressions (lists, closed/open/overlapping ranges, strings) x target/task/algorithm/state-vector constraints x 9 pages; lemma: <=2 ranges (each open or closed, any integer bounds incl. empty/inverted) + <=2 indices, probe id any integer; strings: 3 tokens from a pool of 14',
         'thorough': '<=3 ranges + <=2 indices, all integers; strings: 3 tokens from a pool of 14',
     },
     'assumptions': ['run ids are Python ints (no wrap-around)'],
@@ -137,6 +232,15 @@ def obligations(tier):
         ob.make('scrub', 'scrub', ref, 's0: int, e0: int, i0: int, x: int', ['True'],
                 "{'nones': (False,), 'starts': [s0], 'stops': [e0], 'idx': [i0], 'x': x}", timeout=60, twin=True)
     )
+    nm = (len(RUNIDS), len(TARGETS), len(TASKS), len(ALGS), len(SVS), len(PAGES))
+    masks = [0b111111, 0b010110, 0b101001, 0b000001] if tier == 'quick' else list(range(1, 64))
+    for mask in masks:
+        for r0 in range(len(RUNIDS)):
+            out.append(ob.make(f'find-m{mask:06b}-r{r0}', 'find', 'vp.harness.c17:find_body', 'ti: int, ki: int, ai: int, si: int, pi: int',
+                               [f'0 <= ti < {nm[1]} and 0 <= ki < {nm[2]} and 0 <= ai < {nm[3]} and 0 <= si < {nm[4]} and 0 <= pi < {nm[5]}'],
+                               f"{{'mask': {mask}, 'ri': {r0}, 'ti': ti, 'ki': ki, 'ai': ai, 'si': si, 'pi': pi, 'facet': {mask == 0b111111}}}", timeout=900 if tier == 'quick' else 3000))
+    out.append(ob.make('find', 'find', 'vp.harness.c17:find_body', 'ri: int, ti: int', [f'0 <= ri < {nm[0]} and 0 <= ti < {nm[1]}'],
+                       "{'mask': 63, 'ri': ri, 'ti': ti, 'ki': 0, 'ai': 0, 'si': 0, 'pi': 0, 'facet': False}", timeout=300, twin=True))
     n = len(TOKENS)
     for first in range(n):
         out.append(
